@@ -40,7 +40,6 @@ func (o *in) fireCmd() error {
 	cmd.Stdout = wr
 	err := cmd.Start()
 	if err != nil {
-		o.Lock()
 		o.hasProc = false
 		o.Unlock()
 		return err
